@@ -285,8 +285,8 @@ func gen(c *ex.Ctx) {
 	// calls that matter for the hand-shake, in source order (locals, logging and terminal restoration are ignored)
 	vf := c.Parse("vaxis.go")
 	keep := map[string]bool{"PostEvent": true, "PostEventBlocking": true, "Suspend": true, "close": true, "Close": true,
-		"WaitClose": true, "WriteString": true}
-	for _, nm := range []string{"Close", "Suspend"} {
+		"WaitClose": true, "WriteString": true, "openTty": true}
+	for _, nm := range []string{"Close", "Suspend", "Resume"} {
 		fd := ex.FindFunc(vf, "Vaxis", nm)
 		if fd == nil {
 			c.Fail("vaxis.go: %s not found", nm)
@@ -317,6 +317,9 @@ func gen(c *ex.Ctx) {
 					recv = c.Src(f.X)
 				case *ast.Ident:
 					name = f.Name
+				}
+				if (name == "Lock" || name == "Unlock") && recv == "vx.closeMu" {
+					q = append(q, ex.LeanStr(recv+"."+name))
 				}
 				if keep[name] && !strings.HasPrefix(recv, "vx.tw") {
 					if recv != "" {
